@@ -45,6 +45,9 @@ impl Family for ConcreteFam {
     fn kind_label(_node: &CNode) -> String {
         "cnode".into()
     }
+    fn same(a: &CNode, b: &CNode) -> bool {
+        a == b
+    }
     fn short(node: &CNode) -> String {
         fn go(n: &CNode, s: &mut String) {
             s.push_str(&format!("{}", n.id));
